@@ -203,7 +203,11 @@ class DependencyMapper(DependencyMapperBase[P]):
 
     def map_type_cast(self, expr: TypeCast,
             *args: P.args, **kwargs: P.kwargs) -> Dependencies:
-        return self.rec(expr.inner_expr, *args, **kwargs)
+        # is_quasi_affine applies this mapper to loopy expressions as well;
+        # loopy's TypeCast keeps its operand in 'child'.
+        inner = (expr.inner_expr if isinstance(expr, TypeCast)
+                 else expr.child)  # type: ignore[unreachable]
+        return self.rec(inner, *args, **kwargs)
 
 
 class EvaluationMapper(EvaluationMapperBase[ResultT]):
